@@ -5,7 +5,7 @@ import Ecal.Model.LexerSpec
 Driver of C18. Two case kinds (payload, space separated):
 
 * `L <src-hex>` — result: `pos,line,col` of every token the lexer emits (comments, EOF and
-  error token included), joined by single spaces; the EOF token as `eof,line`.
+  error token included), joined by single spaces.
 * `E <P|R> <src-hex> <off>` — a program with a planted parse (`P`) or runtime (`R`) error whose
   offending token starts at byte offset `off` (`eof`: the EOF token). Result: `line,col` the
   error must carry = the fields of that token in the lexer model.
@@ -17,7 +17,9 @@ Driver of C18. Two case kinds (payload, space separated):
   The known finding hash-comment-column concerns columns only and excuses nothing here.
 
 The specification (true line / column recomputed from the byte offset, `Ecal.Lex.Spec`) is
-evaluated on every case for every token except EOF (which has no first character). Where the
+evaluated on every case for every token; for the EOF token (no first character) the position
+asked for is the end of the input — the code's stale position there is the known finding
+`eof-stale-position` (a trailing EOF after an error token is not constrained). Where the
 model (= the code) deviates from it the line carries `spec=<result with true positions>` and
 `kf=hash-comment-column` if the classifier holds for **every** deviating token and the line
 number is right, `kf=unexplained-position` (not a listed finding ⇒ violation) otherwise.
@@ -31,40 +33,50 @@ def triple (p l : Nat) (c : Int) : String := s!"{p},{l},{c}"
 structure Verdict where
   model : String
   spec : String
+  /-- a token other than EOF deviates from its true position -/
   deviates : Bool
+  /-- … and every such deviation is the known finding hash-comment-column -/
   explained : Bool
+  /-- the EOF token deviates from the end-of-input position -/
+  eofDeviates : Bool := false
+  /-- … and it is the known finding eof-stale-position (the line is right) -/
+  eofExplained : Bool := true
   nontrivial : Bool
 
 def attrs (v : Verdict) : String :=
   v.model ++ (if v.nontrivial then "\tnt=1" else "")
     ++ (if v.deviates then
-          "\tkf=" ++ (if v.explained then "hash-comment-column" else "unexplained-position") ++ "\tspec=" ++ v.spec
+          "\tkf=" ++ (if v.explained && v.eofExplained then "hash-comment-column" else "unexplained-position") ++ "\tspec=" ++ v.spec
+        else if v.eofDeviates then
+          "\tkf=" ++ (if v.eofExplained then "eof-stale-position" else "unexplained-position") ++ "\tspec=" ++ v.spec
         else "")
 
-/-- per token: (model text, spec text, deviates, explained) -/
+/-- per token: (model text, spec text, deviates, explained).  The EOF token has no first
+    character; the position the property asks for is the end of the input. The code stamps it
+    with the start of the previous token (known finding eof-stale-position; its line is right).
+    After an error token the lexer has stopped and a trailing EOF is not constrained. -/
 def judge (inp : Bytes) (toks : List Tok) (t : Tok) (withPos : Bool) : String × String × Bool × Bool :=
   let m := if withPos then triple t.pos t.line t.col else s!"{t.line},{t.col}"
-  if t.id = tEOF then
-    -- EOF has no first character; its Pos and column are leftovers of the previous token and
-    -- are not compared, only its line is
-    let e := if withPos then s!"eof,{t.line}" else s!"{t.line},eof"
-    (e, e, false, true)
+  if t.id = tEOF && toks.any (·.id = tERROR) then (m, m, false, true)
   else
-    let tl := lineOf inp t.pos
-    let tc := colOf inp t.pos
-    let s := if withPos then triple t.pos tl tc else s!"{tl},{tc}"
-    let dev := t.line != tl || t.col != tc
-    (m, s, dev, t.line = tl && afterHashComment inp toks t.pos)
+    let off := if t.id = tEOF then inp.size else t.pos
+    let tl := lineOf inp off
+    let tc := colOf inp off
+    let s := if withPos then triple off tl tc else s!"{tl},{tc}"
+    let dev := t.pos != off || t.line != tl || t.col != tc
+    (m, s, dev, t.line = tl && (t.id = tEOF || afterHashComment inp toks t.pos))
 
 def lexCase (src : List Nat) : String :=
   let inp := src.toArray
   let toks := (lex src).toList
-  let js := toks.map fun t => judge inp toks t true
+  let js := toks.map fun t => (decide (t.id = tEOF), judge inp toks t true)
   let v : Verdict := {
-    model := " ".intercalate (js.map (·.1)),
-    spec := " ".intercalate (js.map (·.2.1)),
-    deviates := js.any (·.2.2.1),
-    explained := js.all fun j => !j.2.2.1 || j.2.2.2,
+    model := " ".intercalate (js.map (·.2.1)),
+    spec := " ".intercalate (js.map (·.2.2.1)),
+    deviates := js.any fun j => !j.1 && j.2.2.2.1,
+    explained := js.all fun j => j.1 || !j.2.2.2.1 || j.2.2.2.2,
+    eofDeviates := js.any fun j => j.1 && j.2.2.2.1,
+    eofExplained := js.all fun j => !j.1 || !j.2.2.2.1 || j.2.2.2.2,
     nontrivial := toks.any fun t => t.id != tEOF && t.line > 1 }
   if toks.isEmpty then "-" else attrs v
 
@@ -80,8 +92,12 @@ def errCase (src : List Nat) (off : String) : String :=
   | none => "no-token-at-offset"
   | some t =>
     let j := judge inp toks t false
-    attrs { model := j.1, spec := j.2.1, deviates := j.2.2.1, explained := j.2.2.2,
-            nontrivial := t.line > 1 }
+    if t.id = tEOF then
+      attrs { model := j.1, spec := j.2.1, deviates := false, explained := true,
+              eofDeviates := j.2.2.1, eofExplained := j.2.2.2, nontrivial := t.line > 1 }
+    else
+      attrs { model := j.1, spec := j.2.1, deviates := j.2.2.1, explained := j.2.2.2,
+              nontrivial := t.line > 1 }
 
 /-- tokens the parser sees (comments are attached to nodes as meta data, never parsed) -/
 def parserToks (src : List Nat) : List Tok :=
